@@ -14,8 +14,8 @@ import Rustemo.Model.AstEval
     `n <name> <reach> <vec>` (`grammar.nonterminals()`); `p <nt> <kind|-> <rn length> <sym>,<term>,<content>,<label|->…`
     (`grammar.productions()`, so that the record number is the `ProdKind` discriminant);
 * tree: `n<prod>(<tree>,…)` | `t<token kind>:<text hex>` (`=` for the empty text);
-* value: `s<hex>` string, `N` None, `S(v)` Some, `[v,…]` Vec, `Name{f=v,…}` struct, `Name(v,…)` / `Name`
-  enum variant, `@v` ValSpan.
+* value: `'<hex>` string, `~` None, `?v` Some, `[v,…]` Vec, `Name{f=v,…}` struct, `Name(v,…)` / `Name`
+  enum variant, `@v` ValSpan (the sigils cannot start an identifier, so no generated name is ambiguous).
 -/
 namespace Rustemo.Ast
 
@@ -121,9 +121,9 @@ def hexS (s : String) : String :=
 
 mutual
 def Val.render : Val → String
-  | .str s => "s" ++ hexS s
-  | .none => "N"
-  | .some v => "S(" ++ v.render ++ ")"
+  | .str s => "'" ++ hexS s
+  | .none => "~"
+  | .some v => "?" ++ v.render
   | .vec vs => "[" ++ Val.renderL vs ++ "]"
   | .node n ls ks =>
     match ls, ks with
